@@ -623,7 +623,7 @@ func runVos(c vosCase) *halfOut {
 				out.Keys = append(out.Keys, "V:*|"+p0)
 			}
 		}
-		for _, e := range envs {
+		for ei, e := range envs {
 			l := e.cfg.L
 			p := substitute(p0, l.Sub)
 			var raws []vraw
@@ -656,7 +656,7 @@ func runVos(c vosCase) *halfOut {
 				v.Partner = q
 				out.Viols = append(out.Viols, v)
 			}
-			if len(out.Samples) < 3 && nonTrivial(p0) && (pi*7+len(out.Samples))%5 == 0 && e.cfg.Cwd != "/" {
+			if len(out.Samples) < 3 && nonTrivial(p0) && pi%5 == 2 && ei == (3+11*len(out.Samples)+pi)%len(envs) {
 				out.Samples = append(out.Samples, fmt.Sprintf("VirtualOS{%s}.Stat(%q): reference says %s", e.cfg, p, fmtRef(l, r)))
 			}
 		}
